@@ -109,7 +109,15 @@ def blob(fmt, ckey, state="ok"):
 
 class Env:
     def __init__(self):
+        os.makedirs(vlib.BUILD, exist_ok=True)
         self.root = tempfile.mkdtemp(prefix="c20-", dir=vlib.BUILD)
+        try:
+            self._setup()
+        except BaseException:
+            shutil.rmtree(self.root, ignore_errors=True)
+            raise
+
+    def _setup(self):
         self.bin = os.path.join(self.root, "bin")
         self.tmp = os.path.join(self.root, "tmp")
         self.work = os.path.join(self.root, "w")
